@@ -11,6 +11,8 @@ nothing about PyDRex; all formula knowledge lives in the TLA+ text that builds t
   ["atan2", y, x]
   ["poly", [c1..c6]]       c1 + c2*bi + c3*bm + c4*bi^2 + c5*bi*bm + c6*bm^2 with bi, bm from env
   ["sum", [t1, t2, ...]]
+  ["polyat", [c1..c6], biname, bmname]      the same polynomial at the named environment variables
+  ["gdivpoly", num6, den6, biname, bmname]  guarded quotient of two such polynomials
 """
 import math
 from fractions import Fraction
@@ -70,6 +72,14 @@ def ev(t, env):
         c = [x[0] / x[1] for x in t[1]]
         bi, bm = env["bi"], env["bm"]
         return c[0] + c[1] * bi + c[2] * bm + c[3] * bi * bi + c[4] * bi * bm + c[5] * bm * bm
+    if op in ("polyat", "gdivpoly"):
+        def P(c, bi, bm):
+            c = [x[0] / x[1] for x in c]
+            return c[0] + c[1] * bi + c[2] * bm + c[3] * bi * bi + c[4] * bi * bm + c[5] * bm * bm
+        if op == "polyat":
+            return P(t[1], env[t[2]], env[t[3]])
+        den = P(t[2], env[t[3]], env[t[4]])
+        return 0.0 if abs(den) < 1e-15 else P(t[1], env[t[3]], env[t[4]]) / den
     if op == "sum":
         return sum(ev(x, env) for x in t[1])
     raise ValueError(f"unknown term operator {op!r}")
